@@ -337,5 +337,21 @@ def r3(prog, run):
             lo = True
         if (a_ == "len(param:frame)" and op == ">=" and b_ in ("expr", "local:aac_frame_length")) or (b_ == "len(param:frame)" and op == "<=" and a_ in ("expr", "local:aac_frame_length")):
             hi = True
+    # decided by entailment, not by the spelling of the guards: at the slicing site the dominating guards must entail h <= L <= len(frame)
+    from .. import absint as _A
+    from . import c12 as _c12
+    cxa = _A.Ctx(b, u)
+    sl = []
+    for bb_, t_, name_, info_ in mir.calls(b):
+        if name_ and mir.norm(name_).split("::")[-1] == "index" and len(t_["args"]) == 2:
+            ix_ = sym.expr(b, t_["args"][1])
+            if ix_[0] == "agg" and str(ix_[1]).endswith("ops::Range::Range"):
+                sl.append((bb_, sym.expr(b, t_["args"][0]), ix_))
+    if len(sl) == 1:
+        bb_, base_, ix_ = sl[0]
+        a_, e_ = cxa.lin(ix_[3][0]), cxa.lin(ix_[3][1])
+        ln_ = cxa.atom(cxa.len_key(base_), 0, _A.LEN_MAX)
+        lo = lo or cxa.prove_le0(a_ - e_, bb_)[0]
+        hi = hi or cxa.prove_le0(e_ - ln_, bb_)[0]
     run.check(lo, "R3", "adts guard L>=h", "success only when L >= h", "the Ok exit is not guarded by frame_length >= header_len (guards: %s)" % sorted(sigs)[:8])
     run.check(hi, "R3", "adts guard L<=len", "success only when L <= len(frame)", "the Ok exit is not guarded by frame_length <= len(frame) (guards: %s)" % sorted(sigs)[:8])
